@@ -70,6 +70,11 @@ def eval_case(case):
     sys = mjcf.loads(xml)
     fn = jax.jit(actuator.to_tau)
     tau = np.asarray(fn(sys, jp.asarray(ctrl), jp.asarray(q), jp.asarray(qd)))
+    # the control may arrive in a narrower dtype than the ranges (float32 policy output, integer bang-bang actions):
+    # every control value here is a half-integer, so the conversion itself is exact
+    alt = [('float32', np.asarray(fn(sys, jp.asarray(ctrl.astype(np.float32)), jp.asarray(q), jp.asarray(qd))).tolist())]
+    if len(acts) and np.all(ctrl == np.round(ctrl)):
+      alt.append(('int32', np.asarray(fn(sys, jp.asarray(ctrl.astype(np.int32)), jp.asarray(q), jp.asarray(qd))).tolist()))
     bumped = []
     for k in range(len(acts)):
       c2 = ctrl.copy()
@@ -83,7 +88,7 @@ def eval_case(case):
   if mj.nu:
     d.ctrl[:] = ctrl
   mujoco.mj_forward(mj, d)
-  return {'xml': xml, 'q': q.tolist(), 'qd': qd.tolist(), 'ctrl': ctrl.tolist(), 'tau': tau.tolist(), 'bumped': bumped,
+  return {'xml': xml, 'q': q.tolist(), 'qd': qd.tolist(), 'ctrl': ctrl.tolist(), 'tau': tau.tolist(), 'bumped': bumped, 'alt': alt,
           'mj': np.asarray(d.qfrc_actuator).tolist(), 'qid': np.asarray(sys.actuator.q_id).tolist() if mj.nu else [],
           'qdid': np.asarray(sys.actuator.qd_id).tolist() if mj.nu else []}
 
@@ -136,6 +141,13 @@ def run(ctx):
       ctx.violation(f'to_tau = {r["tau"]} but the specification (and the reference engine) give {want}', info,
                     {'call': 'actuator.to_tau', 'predicate': 'value'})
       continue
+    badalt = [(dt, t) for dt, t in r.get('alt', []) if nv and np.max(np.abs(np.array(want) - np.array(t))) > 1e-12]
+    if badalt:
+      ctx.violation(f'to_tau with the same controls given as {badalt[0][0]} = {badalt[0][1]}, specification {want}', info,
+                    {'call': 'actuator.to_tau', 'predicate': 'value_dtype'})
+      continue
+    if any(dt == 'int32' for dt, _ in r.get('alt', [])):
+      ctx.extra['integer_control_legs'] = ctx.extra.get('integer_control_legs', 0) + 1
     for k in range(na):
       wb = fn_to_list(case['out']['bumped'][k], nv)
       if np.max(np.abs(np.array(wb) - np.array(r['bumped'][k]))) > 1e-12:
